@@ -95,6 +95,9 @@ package resource
 //@   ensures [shared-array-untouched] forall i int :: 0 <= i && i < old(cap(*fins)) ==> old(*fins)[i] == old((*fins)[i])
 //@   ensures [changed-set-is-fresh] result ==> fresh(*fins) && len(*fins) == old(len(*fins)) + 1 && (*fins)[old(len(*fins))] == fin
 //@   ensures [kept] forall i int :: 0 <= i && i < old(len(*fins)) ==> (*fins)[i] == old((*fins)[i])
+//@   ensures [kept-size] len(*fins) >= old(len(*fins))
+//@   ensures [present-afterwards] exists i int :: 0 <= i && i < len(*fins) && (*fins)[i] == fin
+//@   ensures [added-iff-absent] result <==> !old(exists i int :: 0 <= i && i < len(*fins) && (*fins)[i] == fin)
 //@ func (*Finalizers).Remove
 //@   props C19
 //@   requires [target] fins != nil
